@@ -271,4 +271,23 @@ def repairs : List (String × String × String) := [
   ("control_flow.py", "short_circuit_struct.MergeNodes", "fromkeys")
 ]
 
+/-- The one in-place mutation of a value fetched from another object's DvMethod/DvClass attribute that the
+    code contains: `JSONWriter.get_ast` does `flags = m.access; flags.remove('constructor')`.
+    It is harmless ONLY while every DvMethod owns a list of its own (`expectedAccessSources`): then the
+    mutation is confined to the method being written. -/
+def knownAliasMutations : List (String × String × String × String) := [
+  ("dast.py", "JSONWriter.get_ast", "access", "remove")
+]
+
+/-- The assumption under which `knownAliasMutations` is harmless, as a statement about the code:
+    every producer of an `access` list builds a NEW list on every call (no memoisation) and
+    DvMethod/DvClass store the direct result of such a call. -/
+def expectedAccessSources : List (String × String × String) := [
+  ("util.py", "get_access_class", "fresh-list"),
+  ("util.py", "get_access_method", "fresh-list"),
+  ("util.py", "get_access_field", "fresh-list"),
+  ("decompile.py", "DvMethod.__init__", "call:get_access_method"),
+  ("decompile.py", "DvClass.__init__", "call:get_access_class")
+]
+
 end AgVerif.Order
